@@ -321,7 +321,9 @@ func (d *TCPDialer) dial(addr string, dualStack bool, timeout time.Duration) (ne
 		if errors.Is(err, ErrDialTimeout) {
 			return nil, err
 		}
-		idx++
+		// Keep idx below n so that the increment cannot wrap around the
+		// uint32 range: a wrap would try one address twice and skip another.
+		idx = idx%n + 1
 	}
 	return nil, err
 }
